@@ -53,4 +53,27 @@ theorem pad_tensor_pad_list_eq (dims : List (Int × Int)) :
     Bool.false_eq_true, if_false, List.cons.injEq, and_true]
   omega
 
+/-! `crop_to_bbox` offsets and slice bounds (element-wise reading of the numpy vector code) -/
+theorem bbox_l_offset_eq (n c s : Int) : bbox_l_offset n c s = bboxLOff c := by
+  simp only [bbox_l_offset, bboxLOff, decide_eq_true_eq]
+
+theorem bbox_r_offset_eq (n c s : Int) : bbox_r_offset n c s = bboxROff n c s := by
+  simp only [bbox_r_offset, bboxROff, decide_eq_true_eq]
+
+theorem bbox_region_lo_eq (n c s : Int) : bbox_region_lo n c s = c + bboxLOff c := by
+  simp only [bbox_region_lo, bboxLOff, decide_eq_true_eq]
+
+theorem bbox_region_hi_eq (n c s : Int) :
+    bbox_region_hi n c s = max (c + bboxLOff c) (c + s - bboxROff n c s) := by
+  simp only [bbox_region_hi, bboxLOff, bboxROff, pyMax, decide_eq_true_eq]
+  split <;> split <;> split <;> omega
+
+theorem bbox_patch_lo_eq (n c s : Int) : bbox_patch_lo n c s = bboxLOff c := by
+  simp only [bbox_patch_lo, bboxLOff, decide_eq_true_eq]
+
+theorem bbox_patch_hi_eq (n c s : Int) :
+    bbox_patch_hi n c s = max (bboxLOff c) (s - bboxROff n c s) := by
+  simp only [bbox_patch_hi, bboxLOff, bboxROff, pyMax, decide_eq_true_eq]
+  split <;> split <;> split <;> omega
+
 end DirectVerif.Bridge.C10
